@@ -558,3 +558,75 @@ Theorem C04_ex_order_needed :
          ~ agree_relevant_forms ex_o1 ex_o2 ex_ids.
 Proof. exact (@ex_order_needed). Qed.
 Print Assumptions C04_ex_order_needed.
+
+Require Import WnV.Proofs.F14Witness.
+(* ---- known finding F14 as a machine-checked witness (Proofs/F14Witness.v): f14_db0 holds a base lexicon (1), f14_db the same plus an extension (2) that adds the form "runned" to base entry 1; the two agree on every row of lexicon 1, yet a search for "runned" restricted to lexicon 1 finds the base entry, its sense and its synset on f14_db and nothing on f14_db0 (the leaked entry even lists the foreign form); lemma-only search does not leak; the hypothesis of the frame theorems that F14 violates is exactly agree_sense_forms — the other hypotheses hold *)
+Theorem C04_f14_db_ok :
+  db_ok f14_db = true /\ db_ok f14_db0 = true.
+Proof. exact (@f14_db_ok). Qed.
+Print Assumptions C04_f14_db_ok.
+
+Theorem C04_f14_same_rows :
+  f14_same_lexicon1_rows f14_db0 f14_db.
+Proof. exact (@f14_same_rows). Qed.
+Print Assumptions C04_f14_same_rows.
+
+Theorem C04_f14_find_entries_leak :
+  find_entries f14_db None [S_ "runned"] None [1] false true =
+         [{|
+            qw_id := S_ "e1";
+            qw_pos := S_ "n";
+            qw_forms :=
+              [{| qf_form := S_ "run"; qf_id := None; qf_script := None; qf_rowid := 1 |};
+               {| qf_form := S_ "runned"; qf_id := None; qf_script := None; qf_rowid := 2 |}];
+            qw_lexid := 1;
+            qw_rowid := 1
+          |}] /\
+         find_entries f14_db None [S_ "runned"] None [1] false true <> [] /\
+         find_entries f14_db0 None [S_ "runned"] None [1] false true = [] /\
+         f14_same_lexicon1_rows f14_db0 f14_db.
+Proof. exact (@f14_find_entries_leak). Qed.
+Print Assumptions C04_f14_find_entries_leak.
+
+Theorem C04_f14_find_senses_leak :
+  find_senses f14_db None [S_ "runned"] None [1] false true =
+         [{|
+            qs_id := S_ "s1";
+            qs_entry_id := S_ "e1";
+            qs_synset_id := S_ "ss1";
+            qs_lexid := 1;
+            qs_rowid := 1
+          |}] /\
+         find_senses f14_db None [S_ "runned"] None [1] false true <> [] /\
+         find_senses f14_db0 None [S_ "runned"] None [1] false true = [] /\
+         f14_same_lexicon1_rows f14_db0 f14_db.
+Proof. exact (@f14_find_senses_leak). Qed.
+Print Assumptions C04_f14_find_senses_leak.
+
+Theorem C04_f14_find_synsets_leak :
+  find_synsets f14_db None [S_ "runned"] None None [1] false true =
+         [{|
+            qy_id := S_ "ss1"; qy_pos := Some (S_ "n"); qy_ili := None; qy_lexid := 1; qy_rowid := 1
+          |}] /\
+         find_synsets f14_db None [S_ "runned"] None None [1] false true <> [] /\
+         find_synsets f14_db0 None [S_ "runned"] None None [1] false true = [] /\
+         f14_same_lexicon1_rows f14_db0 f14_db.
+Proof. exact (@f14_find_synsets_leak). Qed.
+Print Assumptions C04_f14_find_synsets_leak.
+
+Theorem C04_f14_lemma_only_no_leak :
+  find_entries f14_db None [S_ "runned"] None [1] false false = [] /\
+         find_senses f14_db None [S_ "runned"] None [1] false false = [] /\
+         find_synsets f14_db None [S_ "runned"] None None [1] false false = [].
+Proof. exact (@f14_lemma_only_no_leak). Qed.
+Print Assumptions C04_f14_lemma_only_no_leak.
+
+Theorem C04_f14_frame_hypothesis_fails :
+  ~ agree_sense_forms f14_db0 f14_db [1].
+Proof. exact (@f14_frame_hypothesis_fails). Qed.
+Print Assumptions C04_f14_frame_hypothesis_fails.
+
+Theorem C04_f14_other_frame_hypotheses_hold :
+  [1] <> [] /\ agree_senses f14_db0 f14_db [1] /\ agree_synsets f14_db0 f14_db [1].
+Proof. exact (@f14_other_frame_hypotheses_hold). Qed.
+Print Assumptions C04_f14_other_frame_hypotheses_hold.
